@@ -168,7 +168,13 @@ pub fn part_a(api: &Api, ord: usize, with_ids: bool, seed: u64, cx: &mut Cx, mod
             let fb = files[r].as_ref().map(|f| Blob::n(&f.1));
             // the server states the identity of the user whose record it serves (no record: the requesting client's)
             let sid: Option<&[u8]> = if !with_ids { None } else if r == 0 { Some(CLIENT_NAMES[q]) } else { Some(USER_NAMES[r - 1]) };
-            let (ke2, st) = api.slogin_start(&mut t, &Blob::n(&setup), fb.as_ref(), &Blob::n(&clients[q].1), CREDS[c], None, sid, None).map_err(|e| format!("slogin_start {:?}", e))?;
+            let (ke2, st) = match api.slogin_start(&mut t, &Blob::n(&setup), fb.as_ref(), &Blob::n(&clients[q].1), CREDS[c], None, sid, None) {
+                Ok(x) => x,
+                // on behalf of C01 (honest behaviour) a login WITHOUT a record that cannot be opened is not an honest
+                // registration+login: that session is simply absent (C08 / C12 judge it)
+                Err(_) if mode == Mode::Honest && r == 0 => continue,
+                Err(e) => return Err(format!("slogin_start {:?}", e)),
+            };
             servers.push(Srv { q, r: if r == 0 { None } else { Some(r) }, c, ke2, st });
         }
         // server sessions opened while the server's random generator FAILS (environment fault): if the library still
